@@ -12,6 +12,7 @@ require (
 	github.com/jlaffaye/ftp v0.0.0-20210307004419-5d4190119067
 	github.com/llgcode/draw2d v0.0.0-20210313082411-577c1ead272a
 	github.com/spf13/cobra v1.5.0
+	github.com/spf13/pflag v1.0.5
 	golang.org/x/image v0.11.0
 	gonum.org/v1/plot v0.14.0
 )
@@ -37,7 +38,6 @@ require (
 	github.com/mattn/go-colorable v0.1.8 // indirect
 	github.com/mattn/go-isatty v0.0.12 // indirect
 	github.com/pmezard/go-difflib v1.0.0 // indirect
-	github.com/spf13/pflag v1.0.5 // indirect
 	github.com/ulikunitz/xz v0.5.10 // indirect
 	golang.org/x/exp v0.0.0-20230801115018-d63ba01acd4b // indirect
 	golang.org/x/exp/shiny v0.0.0-20230801115018-d63ba01acd4b // indirect
